@@ -5,7 +5,7 @@ ALL_KINDS = None
 
 
 def storediff(name, kinds, quick, thorough, search=None):
-    base = (['-kinds', ','.join(kinds)] if kinds else []) + (['-dialect', 'pg'] if 'pgmodel' in name else [])
+    base = (['-kinds', ','.join(kinds)] if kinds else []) + (['-dialect', 'pg'] if 'pgmodel' in name else []) + (['-pgshim'] if 'pgshim' in name else [])
     return dict(bin='storediff', name=name,
                 quick=base + ['-scripts', str(quick[0]), '-batches', str(quick[1])],
                 thorough=base + ['-scripts', str(thorough[0]), '-batches', str(thorough[1])],
@@ -168,7 +168,7 @@ PROPS = {
                  dict(bin='frontdiff', name='frontdiff', quick=['-facts', '{gen}/gofacts.json'], thorough=['-facts', '{gen}/gofacts.json'], search=['-facts', '{gen}/gofacts.json']),
                  storediff('storediff-all', None, (20, 30), (600, 40)),
                  sysdiff('sysdiff-data', ['CreatePromise', 'CompletePromise', 'ReadPromise', 'SearchPromises', 'CreateSchedule', 'ReadSchedule', 'CreateCallback', 'ClaimTask'],
-                         (15, 120), (300, 150), 'C01', ['-routed', '50', '-hostile', '-known', 'F5'], (100, 150))],
+                         (15, 120), (300, 150), 'C01,C10', ['-routed', '50', '-hostile', '-known', 'F5'], (100, 150))],
         rule='codecdiff: random string maps over an alphabet of hostile characters (all 32 control characters, quotes, backslash, slash, markup characters, DEL, U+2028/2029, RTL and combining marks, U+FFFD/U+FFFF, astral-plane characters; lengths up to ~2000) encoded by the real encoding/json and decoded through the real PromiseRecord.Promise(), compared with the Lean codec both ways (char classes counted); storediff / sysdiff carry markup and non-ASCII data, headers, tags, receiver descriptions, slashes and colons in ids through the real store and coroutines and compare every stored row and every response field with the model',
         assumptions=['text = valid UTF-8; absent and empty are equivalent for maps and blobs', 'HTTP / protobuf wire codecs (gin, protobuf, base64) are exercised by frontdiff translation-equality only, not modelled',
                      'Postgres 32-bit columns are outside the model'],
@@ -178,7 +178,8 @@ PROPS = {
         modules=['Resonate.Properties.C18'],
         tie_filter=r'^$',
         harness=[dict(bin='polldiff', name='polldiff', quick=['-scripts', '60', '-steps', '40', '-hostile'], thorough=['-scripts', '1500', '-steps', '60', '-hostile'],
-                      search=['-scripts', '600', '-steps', '60', '-hostile'], divergence_is_violation=False)],
+                      search=['-scripts', '600', '-steps', '60', '-hostile'], divergence_is_violation=False),
+                 dict(bin='routesend', name='routesend', quick=['-cases', '1500'], thorough=['-cases', '20000'], search=['-cases', '6000'])],
         rule='polldiff: offline-generated scripts of connect / disconnect / reconnect (same group+id) / send (invoke and notify; addressed id present, absent, empty, unknown; '
              'addresses as the sender writes them plus case-variant keys, duplicate keys, extra keys, wrong types, truncated JSON and the literal null) / client read / shutdown, '
              'over 3 groups x 4 ids, limits 0..100 and buffers 0..3, run against the REAL PollWorker.Start loop (registry add/rmv/get, Process, shutdown branch) through the verif hook '
@@ -195,7 +196,9 @@ PROPS = {
     'C19': dict(
         modules=['Resonate.Properties.C19'],
         tie_filter=r'^$',
-        harness=[dict(bin='routesend', name='routesend', quick=['-cases', '2000'], thorough=['-cases', '40000'], search=['-cases', '10000'])],
+        harness=[dict(bin='routesend', name='routesend', quick=['-cases', '2000'], thorough=['-cases', '40000'], search=['-cases', '10000']),
+                 sysdiff('sysdiff-handoff', ['CreatePromise', 'CreatePromiseAndTask', 'CompletePromise', 'CreateCallback', 'CreateSubscription', 'ClaimTask'],
+                         (15, 150), (400, 200), 'C19,C08', ['-routed', '80', '-fail', '10', '-crash', '1'], (150, 200))],
         rule='routesend: the WHOLE cross product of addresses x target tables x plugin sets (1400 cases) runs first on every tier, then random draws; cases = routing tag (23 plain strings / URLs incl. odd schemes, escapes, IPv6, spaces, markup; 30 JSON values of every shape: receiver objects with and without data, '
              'null data, unknown / case-variant / duplicate keys, non-string type, arrays, numbers, literals, invalid numbers, trailing commas) or raw stored bytes (16 shapes incl. null) '
              'x 5 target tables (none, default overridden, a target whose NAME is a URL, duplicate names, unknown plugin type) x 6 plugin sets x {invoke, resume, notify} x transport answer '
@@ -297,11 +300,12 @@ PROPS = {
         modules=['Resonate.Properties.C17'],
         tie_filter=r'.*',
         harness=[storediff('storediff-all', None, (25, 30), (800, 40), (300, 40)),
-                 dict(storediff('storediff-pgmodel', None, (25, 30), (800, 40), (300, 40)), regenerated_driver=True, divergence_is_violation=True)],
-        rule='the deciding artefact is static: both statement sets and both handler argument lists are re-translated from /repo on every run and proved '
+                 dict(storediff('storediff-pgmodel', None, (25, 30), (800, 40), (300, 40)), regenerated_driver=True, divergence_is_violation=True),
+                 dict(storediff('storediff-pgshim', None, (25, 30), (800, 40), (300, 40)), regenerated_driver=True, divergence_is_violation=True)],
+        rule='storediff-pgshim: the REAL postgres.go worker (Execute, performCommands, all handlers, the Postgres SQL text) run over a database/sql shim ($N -> ?N, ::casts stripped) on sqlite and compared, result by result and table by table, with the model under the regenerated Postgres definitions, for every command kind except the three whose SQL is Postgres-only (jsonb containment in the two searches, DISTINCT ON in the enqueueable select); the deciding artefact for those, and for engine semantics, is static: both statement sets and both handler argument lists are re-translated from /repo on every run and proved '
              'equal, definition by definition, to SqlSpec.defs .pg / .sqlite (110 tie theorems), whose store semantics are proved equal under DialectSafe; '
              'storediff validates the shared model against the real sqlite store (random batches over all 27 kinds; non-trivial = affected/returned >= 1 row)',
-        assumptions=['no Postgres server exists in the sandbox: the Postgres statements are decided statically (translation + proof), their execution by a real server is not observed',
+        assumptions=['no Postgres server exists in the sandbox: the Postgres Go code is exercised over a shim on sqlite (storediff-pgshim), engine-specific behaviour of a real server is not observed; the three Postgres-only statements are decided statically (translation + proof)',
                      'Postgres 32-bit columns (callbacks.timeout, tasks.ttl/counter, ::int cast) and SERIAL not being rolled back are outside the model (documented dialect differences)',
                      'MVCC behaviour with Workers > 1 is outside the model'],
         trusted_base=['sql2lean.py for the Postgres dialect ($n placeholders, ::casts, @>, DISTINCT ON)'],
